@@ -42,6 +42,9 @@ structure CState where
   zombies : List Nat := []       -- ports bound by listeners of unregistered proxy objects
   /-- names whose proxy mutex is held across two blocks (a `Proxy.Update` that is half-way) -/
   locked  : List String := []
+  /-- proxy objects that were deleted or replaced while a handler still holds them: requests
+  that share such an object see each other's changes to it -/
+  dead    : List ((String × Nat) × ProxyRec) := []
 deriving Inhabited
 
 def CState.epoch (c : CState) (n : String) : Nat := (c.epochs.lookup n).getD 0
@@ -58,6 +61,16 @@ def reEpoch (eps : List (String × Nat)) (s s' : State) : List (String × Nat) :
     | some a, some b => if a.listen != b.listen || a.upstream != b.upstream then bump acc n else acc
     | none, none => acc
     | _, _ => bump acc n) eps
+
+/-- The records that stop being the registered object of their name when the registry moves
+from `s` to `s'` (deleted, or replaced by another address): kept, stopped, under their old
+epoch. -/
+def retired (eps : List (String × Nat)) (s s' : State) : List ((String × Nat) × ProxyRec) :=
+  s.filterMap fun a =>
+    let gone := match s'.find a.name with
+      | some b => a.listen != b.listen || a.upstream != b.upstream
+      | none => true
+    if gone then some ((a.name, (eps.lookup a.name).getD 0), { a with enabled := false }) else none
 
 inductive Kind where
   | single            -- one block: `Api.step`
@@ -102,7 +115,7 @@ def advance (v : UpdVariant) (e0 : Env) (c : CState) (r : Request) (ph : Phase) 
          | _, _ => false
        if blocked then (c, .start) else
        let (s', resp) := step v e c.s r
-       ({ c with s := s', epochs := reEpoch c.epochs c.s s' }, .done resp)
+       ({ c with s := s', epochs := reEpoch c.epochs c.s s', dead := c.dead ++ retired c.epochs c.s s' }, .done resp)
      | .update n | .toxic n =>
        match c.s.find n with
        | none => (c, .done (errResp .proxyNotFound))
@@ -111,7 +124,7 @@ def advance (v : UpdVariant) (e0 : Env) (c : CState) (r : Request) (ph : Phase) 
     (match kindOf r with
      | .update n =>
        -- defaults are read from the object as it is now (a deleted object was stopped)
-       let cur := (c.live n ep).getD { obj with enabled := false }
+       let cur := (c.live n ep).getD ((c.dead.lookup (n, ep)).getD { obj with enabled := false })
        (match decodeProxy ⟨cur.name, cur.listen, cur.upstream, cur.enabled⟩ r.body with
         | none => (c, .done (errResp .badRequestBody))
         | some inp => (c, .ready cur ep inp))
@@ -151,9 +164,13 @@ def advance (v : UpdVariant) (e0 : Env) (c : CState) (r : Request) (ph : Phase) 
           -- is owned by nobody
           -- (a registered proxy of the same name is a different object: it keeps its port; the
           -- dead object gets a name of its own so that `startProxy` does not mistake the two)
-          let (p', ok) := updateProxy e c.s { obj with name := obj.name ++ "\u2020", enabled := false } inp
-          let z := if p'.enabled then (match portOf e p'.listen with | some pt => [pt] | none => []) else []
-          ({ c with zombies := c.zombies ++ z }, .done (if ok then Api.ok 200 (.proxy p') else errResp .internal)))
+          let d0 := (c.dead.lookup (n, ep)).getD { obj with enabled := false }
+          let (p', ok) := updateProxy e c.s { d0 with name := d0.name ++ "\u2020" } inp
+          let p'' := { p' with name := d0.name }
+          let z := if p''.enabled && !d0.enabled then (match portOf e p''.listen with | some pt => [pt] | none => []) else []
+          let z' := if !p''.enabled && d0.enabled then (match portOf e d0.listen with | some pt => c.zombies.erase pt | none => c.zombies) else c.zombies
+          ({ c with zombies := z' ++ z, dead := ((n, ep), p'') :: c.dead.filter (·.1 != (n, ep)) },
+           .done (if ok then Api.ok 200 (.proxy p'') else errResp .internal)))
      | _ => (c, .done (errResp .internal)))
   | .stopped off ep inp =>
     let mid := { off with listen := inp.listen, upstream := inp.upstream }
